@@ -43,11 +43,74 @@ var Table = map[string]Spec{
 	"eval": {0, 0, 0, 2, 0}, "evalsha": {0, 0, 0, 2, 0},
 }
 
+// Custom: commands whose key positions depend on options, transcribed from the getkeys procedures of the Redis server
+// (db.c: georadiusGetKeys, sortGetKeys). Only their WRITE forms (with a STORE destination) are generated.
+var Custom = map[string]func(args [][]byte) ([]int, bool){
+	"georadius":         geoRadiusKeys,
+	"georadiusbymember": geoRadiusKeys,
+	"sort":              sortKeys,
+}
+
+// Known reports whether the reference knows the command's key positions.
+func Known(name string) bool {
+	name = strings.ToLower(name)
+	if _, ok := Custom[name]; ok {
+		return true
+	}
+	_, ok := Table[name]
+	return ok
+}
+
+// georadiusGetKeys: the key, plus the destination of STORE / STOREDIST; options are looked for from the 5th argument after the
+// command name on (argv[5]); when several are given the LAST one is the destination (as in georadiusCommand itself).
+func geoRadiusKeys(args [][]byte) ([]int, bool) {
+	if len(args) == 0 {
+		return nil, false
+	}
+	stored := -1
+	for i := 4; i < len(args); i++ {
+		if (strings.EqualFold(string(args[i]), "store") || strings.EqualFold(string(args[i]), "storedist")) && i+1 < len(args) {
+			stored = i + 1
+			i++
+		}
+	}
+	if stored < 0 {
+		return []int{0}, true
+	}
+	return []int{0, stored}, true
+}
+
+// sortGetKeys: the key, plus the destination of the LAST STORE; LIMIT skips two arguments, GET and BY one.
+func sortKeys(args [][]byte) ([]int, bool) {
+	if len(args) == 0 {
+		return nil, false
+	}
+	stored := -1
+	for i := 1; i < len(args); i++ {
+		a := strings.ToLower(string(args[i]))
+		switch {
+		case a == "limit":
+			i += 2
+		case a == "get" || a == "by":
+			i++
+		case a == "store" && i+1 < len(args):
+			stored = i + 1
+		}
+	}
+	if stored < 0 {
+		return []int{0}, true
+	}
+	return []int{0, stored}, true
+}
+
 // PartialOK: commands the property allows to be forwarded restricted to the accepted keys.
 var PartialOK = map[string]bool{"del": true, "unlink": true, "mset": true}
 
 // Keys returns the 0-based indexes of the key arguments, or ok=false when the command is not in the table or the layout is invalid.
 func Keys(cmd string, args [][]byte) ([]int, bool) {
+	if f, ok := Custom[strings.ToLower(cmd)]; ok {
+		return f(args)
+	}
 	sp, ok := Table[strings.ToLower(cmd)]
 	if !ok || len(args) == 0 {
 		return nil, false
